@@ -10,6 +10,7 @@ through the protobuf library is observed by stream `saveload`, see DESIGN.md).
 -/
 import Acme.Core.SaveSel
 import Acme.Gen.EnumMaps
+import Acme.Gen.ProtoFields
 
 namespace Acme.Props.C12
 open Acme.SaveSel
@@ -104,5 +105,27 @@ theorem invertedTables_sound (savers loaders : List (String × Table)) (name : S
       simpa using this
     · cases hv
   · cases hv
+
+/-! ### every field of the schema is written by the saver and read back by the loader
+
+`Acme.Gen.schemaFields / savedFields / loadedFields` are REGENERATED from the generated schema
+package, saver.go and loader.go on every run.  A field the saver stops writing, a field the
+loader stops reading (or reconstructs from something else), or a new schema field that neither
+touches, changes these lists and breaks the theorem. -/
+
+/-- fields that are written but deliberately not read back, with the reason -/
+def savedNotLoaded : List ((String × String) × String) := [
+  (("AttributeAssignment", "EntityId"), "id of the owning entity: the assignment is nested in its owner, the loader assigns to that owner"),
+  (("Entity", "EntityKind"), "the loader passes the kind that the position in the tree implies (loadEntity(_, kind))")
+]
+
+theorem C12_fields :
+    Acme.Gen.savedFields = Acme.Gen.schemaFields ∧
+    Acme.Gen.loadedFields = Acme.Gen.savedFields.filter (fun p => !(savedNotLoaded.map (·.1)).contains p) := by
+  decide
+
+/-- the inventory is about the real schema: a few of its fields -/
+example : ("Message", "StaticCanId") ∈ Acme.Gen.loadedFields ∧ ("SignalType", "Min") ∈ Acme.Gen.loadedFields ∧
+    ("MultiplexerSignal", "Groups") ∈ Acme.Gen.savedFields := by decide
 
 end Acme.Props.C12
